@@ -123,12 +123,20 @@ fn run(input: RunInput) -> ScenFuture {
             let h_us = if busy_call { (h_us / 1000).min(300) * 1000 } else { h_us };
             let slack = if busy_call || layer_busy { 40 * MS } else { 0 };
             let margin = margin_base + slack;
-            let (hdr, class) = header_value(&mut r, d_in, d_out, h_us / 1000);
+            // ... or starts with a synchronous CPU-bound stretch inside its first poll and awaits
+            // only then: the deadline counts from the call all the same, and is acted on as soon
+            // as the handler yields
+            let burn_ms: u64 = if busy_run && !busy_call && r_busy.gen_bool(0.25) { r_busy.gen_range(5..200) } else { 0 };
+            let h_us = if burn_ms > 0 { h_us.min(600_000) } else { h_us };
+            let (hdr, class) = header_value(&mut r, d_in, d_out, h_us / 1000 + burn_ms);
             let api = r.gen_range(0..3);
             let mut req = Request::new(Bytes::from(format!("c{i}"))).with_header("x-nonce", i.to_string());
             req = if busy_call { req.with_header("x-busy-ms", (h_us / 1000).to_string()) } else { req.with_header("x-delay-us", h_us.to_string()) };
             if busy_call {
                 w.probe("call-with-busy-handler");
+            }
+            if burn_ms > 0 {
+                req = req.with_header("x-burn-ms", burn_ms.to_string());
             }
             if let Some(v) = &hdr {
                 req = req.with_header("timeout", v.clone());
@@ -168,6 +176,44 @@ fn run(input: RunInput) -> ScenFuture {
             }
             if caller == "other-status" || caller == "other-error" {
                 w.violate("unexpected-rpc-outcome", key.clone(), format!("call {i}: {:?}", res.as_ref().map(|r| r.status()).map_err(|e| format!("{e:#}"))));
+                continue;
+            }
+            if burn_ms > 0 {
+                // the process is one thread: while the handler burns CPU nobody else runs, so only
+                // calls whose caller-side deadline is out of the picture are judged, and only on
+                // the serving side's decision
+                let burn_ns = burn_ms * MS;
+                let total = burn_ns + h_ns;
+                if dc.map(|d| d > hold_us * 1000 + total + burn_ns + 4 * lmax + 100 * MS).unwrap_or(true) {
+                    // a handler that finishes within its first poll cannot be cut off
+                    let ds_eff = if h_us == 0 { None } else { ds.map(|d| d.max(burn_ns)) };
+                    let expect = match ds_eff {
+                        Some(d) if total > d.saturating_add(margin_base) => Some("status-timeout"),
+                        Some(d) if total.saturating_add(margin_base) >= d => None,
+                        _ => Some("ok"),
+                    };
+                    w.probe("call-with-cpu-bound-first-poll");
+                    match expect {
+                        None => skipped += 1,
+                        Some(e) if e != caller => {
+                            let class_v = if e == "ok" { "server-cut-off-early" } else { "server-deadline-not-enforced" };
+                            w.violate(class_v, key.clone(), format!("call {i}: header {hdr:?}, inbound default {d_in:?} ms, handler CPU-bound for {burn_ms} ms in its first poll and then asleep for {h_us} us: model expects caller outcome {e}, got {caller} after {} ms", (t1 - t0) / MS));
+                        }
+                        Some("status-timeout") => {
+                            cut += 1;
+                            if let (Some(s), Some(d)) = (&seen, ds_eff) {
+                                let sc = s.at_ns.saturating_add(d);
+                                match s.dropped_at_ns {
+                                    Some(at) if at >= sc && at <= sc + 2 * MS => {}
+                                    other => w.violate("handler-dropped-at-wrong-instant", key.clone(), format!("call {i}: handler (CPU-bound for {burn_ms} ms, then asleep) dropped {:?} us after its start, model server deadline {} us", other.map(|at| (at - s.at_ns) / 1000), d / 1000)),
+                                }
+                            }
+                        }
+                        _ => {}
+                    }
+                } else {
+                    skipped += 1;
+                }
                 continue;
             }
             // ---- caller side ----
